@@ -28,7 +28,7 @@ const SIGS: [&str; 3] = ["ok", "byte0", "byte9"];
 const IDENTS: [&str; 5] = ["none", "empty", "1", "255", "256"];
 /// what follows the greeting; "+ready": the same, with a perfectly valid READY right behind it
 /// (skipping the unexpected item instead of rejecting the connection would then admit it)
-const FIRST: [&str; 6] = ["ready", "other-command", "message", "other-command+ready", "ping+ready", "message+ready"];
+const FIRST: [&str; 7] = ["ready", "other-command", "message", "other-command+ready", "ping+ready", "message+ready", "message-frame-with-MORE+ready"];
 
 /// RFC 23/28/29/30 socket compatibility, written independently of zmq.rs.
 pub fn rfc_compatible(a: &str, b: &str) -> bool {
@@ -165,10 +165,13 @@ impl Point {
                 }
                 v.extend(rc::command(b"ERROR", &rc::props(&list)));
             }
-            "other-command+ready" | "ping+ready" | "message+ready" => {
+            "other-command+ready" | "ping+ready" | "message+ready" | "message-frame-with-MORE+ready" => {
                 match self.first.as_str() {
                     "other-command+ready" => v.extend(rc::command(b"ERROR", b"\x05oops!")),
                     "ping+ready" => v.extend(rc::command(b"PING", b"\x00\x0a")),
+                    // the first frame of a message that is never finished: what comes first is
+                    // still a message
+                    "message-frame-with-MORE+ready" => v.extend_from_slice(&[0x01, 0x02, b'h', b'i']),
                     _ => v.extend(rc::message(&[b"hello".to_vec()])),
                 }
                 let mut list: Vec<(&[u8], &[u8])> = Vec::new();
